@@ -280,6 +280,7 @@ func (w *c06World) runDialback(out *vlib.Out, pp *c06Parsed, provided string, ge
 		valid = stored != nil && stored.Valid
 		return valid && connecting
 	})
+	pp.checkAnnounced(out, fail, got)
 	call, dests, dialDNS, dialed := obs.call, obs.dests, obs.dialDNS, obs.dialed
 	launchedF := "-"
 	if call != nil {
@@ -294,6 +295,7 @@ func (w *c06World) runDialback(out *vlib.Out, pp *c06Parsed, provided string, ge
 			if regs, err := pp.rm.parseRegMessage(msg); err == nil && len(regs) == 1 && regs[0] != nil {
 				dupSent = true
 				dupObs = ingest(regs[0], func() bool { return false })
+				pp.checkAnnounced(out, fail, "")
 				out.Count("dialback:re-sent")
 			}
 		}
